@@ -14,7 +14,11 @@ impl AtomicMin {
     }
 
     pub fn get(&self) -> Option<usize> {
+        #[cfg(feature = "verif")]
+        let _guard = crate::verif::op_guard();
         let val = self.val.load(SeqCst);
+        #[cfg(feature = "verif")]
+        crate::verif::on_bound_read(val);
         if val == usize::MAX {
             None
         } else {
@@ -24,6 +28,10 @@ impl AtomicMin {
 
     /// Try a new value, returning true if it is the new minimum
     pub fn set_min(&self, new_val: usize) -> bool {
+        #[cfg(feature = "verif")]
+        let _guard = crate::verif::op_guard();
+        #[cfg(feature = "verif")]
+        crate::verif::on_set_min(new_val);
         new_val < self.val.fetch_min(new_val, SeqCst)
     }
 }
